@@ -256,8 +256,66 @@ pub fn lifetimes(_thorough: bool) -> Vec<TextCase> {
     out
 }
 
+/// A cycle that comes back to the same goal with its unknowns PERMUTED (`P<X, Y>: C` needs
+/// `P<Y, X>: C`), for a coinductive and an inductive trait, with every order of every set of
+/// side conditions around the cyclic where-clause (the recursive solver works through
+/// where-clauses last to first, the SLG solver first to last).
+pub fn coperm(_thorough: bool) -> Vec<TextCase> {
+    let side = ["X: IsA", "Y: IsB", "Y: IsA"];
+    let cyc = "P<Y, X>: C";
+    let goals: Vec<String> = [
+        "exists<X, Y> { P<X, Y>: C }",
+        "P<A, A>: C",
+        "P<A, B>: C",
+        "P<B, A>: C",
+        "P<B, B>: C",
+        "exists<X> { P<X, A>: C }",
+        "exists<X> { P<A, X>: C }",
+        "exists<X> { P<X, X>: C }",
+    ]
+    .iter()
+    .map(|s| s.to_string())
+    .collect();
+    fn perms(items: &[&str]) -> Vec<Vec<String>> {
+        if items.is_empty() {
+            return vec![vec![]];
+        }
+        let mut out = vec![];
+        for i in 0..items.len() {
+            let mut rest: Vec<&str> = items.to_vec();
+            let x = rest.remove(i);
+            for mut p in perms(&rest) {
+                p.insert(0, x.to_string());
+                out.push(p);
+            }
+        }
+        out
+    }
+    let mut out = vec![];
+    for co in [true, false] {
+        for mask in 0u32..8 {
+            let mut items: Vec<&str> = (0..3).filter(|i| mask >> i & 1 == 1).map(|i| side[i]).collect();
+            items.push(cyc);
+            for order in perms(&items) {
+                out.push(TextCase {
+                    family: "coperm",
+                    program: format!(
+                        "{}trait C {{}} trait IsA {{}} trait IsB {{}} struct A {{}} struct B {{}} struct P<X, Y> {{}} \
+                         impl IsA for A {{}} impl IsB for B {{}} impl<X, Y> C for P<X, Y> where {} {{}}",
+                        if co { "#[coinductive] " } else { "" },
+                        order.join(", ")
+                    ),
+                    goals: goals.clone(),
+                });
+            }
+        }
+    }
+    out
+}
+
 pub fn all(thorough: bool) -> Vec<TextCase> {
     let mut v = vec![];
+    v.extend(coperm(thorough));
     v.extend(assoc(thorough));
     v.extend(auto(thorough));
     v.extend(builtin(thorough));
